@@ -430,10 +430,13 @@ func c06R3(p *core.Prog, r *core.Report) {
 		return
 	}
 	isNew := func(f *types.Func) bool { return core.IsModFunc(f, "types/manifest", "New") }
+	helpers := core.Helpers(fn, 2) // the placeholder may be built by an unexported helper
 	callSet := func(v ssa.Value) map[*ssa.Call]bool {
 		m := map[*ssa.Call]bool{}
-		for _, c := range originCalls(v) {
-			m[c] = true
+		for _, o := range core.Origins(v, core.SliceOpts{Helpers: helpers}) {
+			if o.Kind == core.OCall {
+				m[o.Call] = true
+			}
 		}
 		return m
 	}
